@@ -158,6 +158,30 @@ type accCall struct {
 
 func (m *aolModel) accessorCalls(fn *ssa.Function, o *Origin) []accCall {
 	var out []accCall
+	// accessor calls of fn itself and of the transparent helpers it delegates to (terms in fn's vocabulary; the call site used
+	// for dominance and path conditions is the call in fn through which the accessor is reached)
+	for _, vc := range o.VirtualCalls() {
+		if vc.Direct {
+			continue
+		}
+		a := m.accessor(vc.Callee)
+		if a == nil || vc.Term == nil {
+			continue
+		}
+		root, ok := vc.Root.(*ssa.Call)
+		if !ok || !vc.Always {
+			continue
+		}
+		ac := accCall{cs: CallSite{Fn: fn, Instr: root, Callee: vc.Callee, Name: vc.Name}, acc: a}
+		t := vc.Term
+		if t.Op == "call" && len(t.Args) >= 3 {
+			ac.key = t.Args[2]
+			if len(t.Args) >= 4 {
+				ac.val = t.Args[3]
+			}
+		}
+		out = append(out, ac)
+	}
 	for _, cs := range callSites(fn) {
 		a := m.accessor(cs.Callee)
 		if a == nil {
